@@ -215,7 +215,7 @@ impl Property for C03 {
     fn fuzz_runs(&self, tier: Tier) -> u64 {
         match tier {
             Tier::Quick => 0,
-            Tier::Thorough => 1200,
+            Tier::Thorough => 300,
         }
     }
     fn cases(&self, tier: Tier) -> u64 {
